@@ -12,7 +12,7 @@ HERE = os.path.dirname(os.path.dirname(os.path.abspath(__file__)))
 CHECKS = {   # seeded id -> [(property check, --only obligations or None)]
     'C01-a': [('C01', 'forward_open_request_small_large_O_T,forward_open_request_large_small_T_O,forward_open_request_large_small_O_T,forward_open_request_small_small_O_T')],
     'C02-a': [('C02', None), ('C06', 'pipelined_onecut_writetag_readtag,pipelined_onecut_readend_multiplemul')],
-    'C03-a': [('C03', 'configured_tags_are_distinct_arrays'), ('C14', 'unconnected_multiread,connected_read_small')],
+    'C03-a': [('C03', 'configured_tags_are_distinct_arrays'), ('C14', 'unconnected_multiread_0_5,connected_read_small')],
     'C04-a': [('C04', None)],
     'C05-a': [('C05', None)],
     'C06-a': [('C15', 'route_simple_vs_one_write,route_simple_vs_absent_read,route_simple_vs_empty_write'), ('C06', 'one_reply_read_tag,one_reply_write_tag')],
@@ -22,7 +22,7 @@ CHECKS = {   # seeded id -> [(property check, --only obligations or None)]
     'C11-a': [('C11', 'multibyte_plus,multibyte')],
     'C12-a': [('C12', 'bundles_never_mix_paths_order1_depth0,bundles_never_mix_paths_order1_depth2')],
     'C13-a': [('C13', 'reply_lost_depth2_multiple100')],
-    'C14-a': [('C14', 'unconnected_multiread,connected_read_small'), ('C03', 'configured_tags_are_distinct_arrays')],
+    'C14-a': [('C14', 'unconnected_multiread_0_5,connected_read_small'), ('C03', 'configured_tags_are_distinct_arrays')],
     'C15-a': [('C15', 'route_one_vs_onestr_write,route_one_vs_one_write')],
     'C16-a': [('C16', 'reserved_and_indexed')],
     'C19-a': [('C19', None)],
